@@ -74,8 +74,8 @@ Print Assumptions C12_sequence_remove_guard.
    re-establishes the relation; lookups agree exactly, iterations return a permutation of the bindings (each
    exactly once).  The only other outcome is the model-level usize overflow of roundpow2, and it is bounded: it
    needs a request of more than 2^62 buckets ([hop_request], computed from the operation and the number of
-   bindings of the SPECIFICATION's state), so it is excluded for every map with fewer than 2^60 bindings
-   (C12_hashmap_no_overflow_below_2p60). *)
+   bindings of the SPECIFICATION's state), so it is excluded for every map with fewer than 2^50 bindings
+   (C12_hashmap_no_overflow_below_2p50). *)
 Theorem C12_hashmap_step_refines_map :
   forall (K V : Type) (kdflt : K) (vdflt : V) (keqb : K -> K -> bool) (khash : K -> Z),
   (forall a b, keqb a b = keqb b a) ->
@@ -105,26 +105,26 @@ Theorem C12_hashmap_history_refines_map :
 Proof. exact hm_run_refines. Qed.
 Print Assumptions C12_hashmap_history_refines_map.
 
-(* the Overflow outcome is unreachable for maps of any realistic size: fewer than 2^60 bindings, counts given to
-   reserve/rehash below 2^60 (for a whole history: initial bindings + number of operations below 2^60) *)
-Theorem C12_hashmap_no_overflow_below_2p60 :
+(* the Overflow outcome is unreachable for maps of any realistic size: fewer than 2^50 bindings, counts given to
+   reserve/rehash below 2^50 (for a whole history: initial bindings + number of operations below 2^50) *)
+Theorem C12_hashmap_no_overflow_below_2p50 :
   forall (K V : Type) (kdflt : K) (vdflt : V) (keqb : K -> K -> bool) (khash : K -> Z),
   (forall a b, keqb a b = keqb b a) ->
   (forall a b c, keqb a b = true -> keqb b c = true -> keqb a c = true) ->
   (forall a b, keqb a b = true -> khash a = khash b) ->
   (forall (o : hop K V) (m : hmap K V) (al : list (K * V)), hm_R K V keqb khash m al ->
-     (Z.of_nat (length al) < 2 ^ 60)%Z -> (Z.of_nat (hop_count K V o) < 2 ^ 60)%Z ->
+     (Z.of_nat (length al) < 2 ^ 50)%Z -> (Z.of_nat (hop_count K V o) < 2 ^ 50)%Z ->
      hm_step K V kdflt vdflt keqb khash o m <> Trap TrapOverflow) /\
   (forall (ops : list (hop K V)) (m : hmap K V) (al : list (K * V)), hm_R K V keqb khash m al ->
-     (Z.of_nat (length al + length ops) < 2 ^ 60)%Z ->
-     (forall o, In o ops -> (Z.of_nat (hop_count K V o) < 2 ^ 60)%Z) ->
+     (Z.of_nat (length al + length ops) < 2 ^ 50)%Z ->
+     (forall o, In o ops -> (Z.of_nat (hop_count K V o) < 2 ^ 50)%Z) ->
      hm_run K V kdflt vdflt keqb khash ops m <> Trap TrapOverflow).
 Proof.
   intros K V kdflt vdflt keqb khash Hs Ht Hc. split.
   - exact (hm_step_no_overflow K V kdflt vdflt keqb khash Hs Ht Hc).
   - exact (hm_run_no_overflow K V kdflt vdflt keqb khash Hs Ht Hc).
 Qed.
-Print Assumptions C12_hashmap_no_overflow_below_2p60.
+Print Assumptions C12_hashmap_no_overflow_below_2p50.
 
 Theorem C12_hashmap_empty_related :
   forall (K V : Type) (keqb : K -> K -> bool) (khash : K -> Z), hm_R K V keqb khash (hm_empty K V) [].
